@@ -775,7 +775,7 @@ class Point:
                 return complex({'<': d < 0, '<=': d <= 0, '>': d > 0, '>=': d >= 0, '==': d == 0, '!=': d != 0}[x.val])
             if op == 'fn':
                 nm = x.val
-                if nm == 'exp': return cmath.exp(a[0])
+                if nm == 'exp': return cmath.exp(a[0]) if a[0].real != float('-inf') else 0j
                 if nm == 'cexp': return cmath.exp(1j * a[0])
                 if nm == 'sin': return cmath.sin(a[0])
                 if nm == 'cos': return cmath.cos(a[0])
@@ -788,7 +788,7 @@ class Point:
                 if nm == 'imag': return complex(a[0].imag)
                 if nm == 'conj': return a[0].conjugate()
                 if nm == 'abs2': return complex(abs(a[0]) ** 2)
-                if nm == 'log': return cmath.log(a[0])
+                if nm == 'log': return cmath.log(a[0]) if a[0] != 0 else complex(float('-inf'), 0.0)      # (numpy: log(0) = -inf, so that 0 ** b = exp(b log 0) = 0 for b > 0)
                 if nm == 'gamma' and a[0].imag == 0: return complex(math.gamma(a[0].real))
                 if nm in ('floor', 'ceil') and a[0].imag == 0: return complex(math.floor(a[0].real) if nm == 'floor' else math.ceil(a[0].real))
                 if nm in ('max', 'min') and all(v_.imag == 0 for v_ in a): return complex((max if nm == 'max' else min)(v_.real for v_ in a))
